@@ -59,7 +59,39 @@ Proof.
   fold n. apply sin_asin. exact H.
 Qed.
 
-(* ---- round trip, conditional on the optimiser's result *)
+(* ---- round trip, conditional on the optimiser's result; any sign of the external angle: the code solves for the magnitude on the
+   side the angle points to (direction polar angle sign * internal) and restores the sign *)
+Lemma signum_cases x : (0 <= x /\ signum x = 1 /\ Rabs x = x) \/ (x < 0 /\ signum x = -1 /\ Rabs x = - x).
+Proof.
+  unfold signum. destruct (Rle_dec 0 x) as [H | H].
+  - left. repeat split; [exact H | apply Rabs_right; lra].
+  - right. apply Rnot_le_lt in H. repeat split; [exact H | apply Rabs_left; exact H].
+Qed.
+
+Lemma signum_abs x : signum x * Rabs x = x.
+Proof. destruct (signum_cases x) as [(_ & -> & ->) | (_ & -> & ->)]; ring. Qed.
+
+Lemma Rabs_signum x : Rabs (signum x) = 1.
+Proof.
+  destruct (signum_cases x) as [(_ & -> & _) | (_ & -> & _)]; [apply Rabs_R1 |].
+  rewrite Rabs_left by lra. lra.
+Qed.
+
+Lemma sin_signum x t : sin (signum x * t) = signum x * sin t.
+Proof. destruct (signum_cases x) as [(_ & -> & _) | (_ & -> & _)]; [rewrite !Rmult_1_l; reflexivity |].
+  replace (-1 * t) with (- t) by ring. rewrite sin_neg. ring. Qed.
+
+Lemma asin_signum x t : asin (signum x * t) = signum x * asin t.
+Proof. destruct (signum_cases x) as [(_ & -> & _) | (_ & -> & _)]; [rewrite !Rmult_1_l; reflexivity |].
+  replace (-1 * t) with (- t) by ring. rewrite asin_opp. ring. Qed.
+
+Lemma abs_sin_small x : Rabs x <= PI -> Rabs (sin x) = sin (Rabs x).
+Proof.
+  intros H. destruct (signum_cases x) as [(H0 & _ & E) | (H0 & _ & E)]; rewrite E in *.
+  - apply Rabs_right. apply Rle_ge, sin_ge_0; lra.
+  - rewrite sin_neg. apply Rabs_left1. assert (0 <= sin (- x)) by (apply sin_ge_0; lra). rewrite sin_neg in H1. lra.
+Qed.
+
 Section RoundTrip.
 (* oracles: argmin's Nelder-Mead as wrapped by math::nelder_mead_1d; the crystal's index along a direction *)
 Variable nm : (R -> R) -> R -> R -> R -> R -> R -> R -> R.
@@ -73,83 +105,139 @@ Definition theta_star : R :=
 
 Definition snell_inv_of : beam -> R -> R := calc_internal_theta_from_external_gen nm n_along.
 
-Lemma calc_internal_is_theta_star : 0 <= e -> snell_inv_of s e = theta_star.
+Lemma calc_internal_is_theta_star : snell_inv_of s e = signum e * theta_star.
 Proof.
-  intros He.
-  assert (Hs : signum (e / 1) = 1).
-  { unfold signum. destruct (Rle_dec 0 (e / 1)) as [_ | n]; [reflexivity | exfalso; apply n; rewrite div1; exact He]. }
   unfold snell_inv_of, calc_internal_theta_from_external_gen, theta_star, snell_cost_gen, snell_seed0_gen, snell_seed1_gen,
     snell_max_iter_gen, snell_lower_gen, snell_upper_gen, snell_tolerance_gen.
-  rewrite Hs, Rmult_1_l. apply mul1.
+  rewrite mul1. rewrite (div1 e) at 1. reflexivity.
 Qed.
 
 (* contract of the optimiser on this input (checked per input by the harness) *)
 Hypothesis Hbeam : beam_inv s.
-Hypothesis He : 0 <= e <= M.
+Hypothesis He : Rabs e <= M.
 Hypothesis HM : M < PI / 2.
 Hypothesis Hbounds : 0 <= theta_star <= PI / 2.
 Hypothesis Hres : snell_cost_gen n_along s e theta_star <= r.
-Hypothesis HrM : sin e + r <= sin M.
+Hypothesis HrM : sin (Rabs e) + r <= sin M.
 
-Let n_star := n_along (normalize (polar_dir (b_phi s) theta_star)).
+Let sg := signum e.
+Let a := Rabs e.
+Let n_star := n_along (normalize (polar_dir (b_phi s) (sg * theta_star))).
 
-Lemma residual_form : Rabs (sin e - n_star * sin theta_star) <= r.
+Lemma a_range : 0 <= a <= M. Proof. unfold a. split; [apply Rabs_pos | exact He]. Qed.
+
+Lemma residual_form : Rabs (sin a - n_star * sin theta_star) <= r.
 Proof.
-  unfold snell_cost_gen in Hres. rewrite !div1, !mul1 in Hres. exact Hres.
+  unfold snell_cost_gen in Hres. rewrite !div1, !mul1 in Hres.
+  rewrite abs_sin_small in Hres by (pose proof PI_RGT_0; lra). exact Hres.
 Qed.
 
 (* the beam after set_theta_external *)
 Let s' := set_theta_external_gen snell_inv_of s e.
 
-Lemma after_set_theta_external : b_theta s' = theta_star /\ b_phi s' = b_phi s.
+Lemma after_set_theta_external : b_theta s' = sg * theta_star /\ b_phi s' = b_phi s.
 Proof.
   unfold s'. rewrite set_theta_external_nf, set_angles_nf. cbn [b_theta b_phi].
-  rewrite Rabs_right by lra. rewrite calc_internal_is_theta_star by lra.
+  rewrite calc_internal_is_theta_star. fold sg.
   destruct Hbeam as (_ & _ & Hphi & _). pose proof PI_RGT_0.
-  split; [apply norm_s_fixed; lra | apply norm_u_fixed; exact Hphi].
+  split; [| apply norm_u_fixed; exact Hphi].
+  apply norm_s_fixed. unfold sg. destruct (signum_cases e) as [(_ & -> & _) | (_ & -> & _)]; lra.
 Qed.
 
-Theorem stored_angle_satisfies_snell : Rabs (sin e - n_star * sin (b_theta s')) <= r.
-Proof. destruct after_set_theta_external as [-> _]. apply residual_form. Qed.
+Lemma abs_theta_after : Rabs (b_theta s') = theta_star.
+Proof.
+  destruct after_set_theta_external as [-> _]. unfold sg.
+  destruct (signum_cases e) as [(_ & -> & _) | (_ & -> & _)].
+  - rewrite Rmult_1_l. apply Rabs_right. lra.
+  - replace (-1 * theta_star) with (- theta_star) by ring. rewrite Rabs_Ropp. apply Rabs_right. lra.
+Qed.
+
+(* sin|theta_e| = n(theta_i) sin|theta_i| within r, n taken along the stored direction *)
+Theorem stored_angle_satisfies_snell :
+  Rabs (sin (Rabs e) - n_along (normalize (polar_dir (b_phi s) (b_theta s'))) * sin (Rabs (b_theta s'))) <= r.
+Proof. rewrite abs_theta_after. destruct after_set_theta_external as [-> _]. apply residual_form. Qed.
+
+Lemma x_range : - sin M <= n_star * sin theta_star <= sin M.
+Proof.
+  pose proof residual_form as Hr. apply Rabs_le_inv in Hr. pose proof a_range.
+  assert (Hr0 : 0 <= r) by (pose proof residual_form as H1; eapply Rle_trans; [apply Rabs_pos | exact H1]).
+  assert (0 <= sin a) by (apply sin_ge_0; pose proof PI_RGT_0; lra).
+  assert (0 <= sin M) by (apply sin_ge_0; pose proof PI_RGT_0; lra). fold a in HrM. lra.
+Qed.
+
+(* the asin-domain guard of the forward relation follows from the residual bound *)
+Theorem forward_guard_from_residual : -1 <= n_star * sin (sg * theta_star) <= 1.
+Proof.
+  pose proof x_range as Hx. assert (HsM1 : sin M <= 1) by apply SIN_bound.
+  unfold sg. rewrite sin_signum. destruct (signum_cases e) as [(_ & -> & _) | (_ & -> & _)]; lra.
+Qed.
+
+Theorem forward_relation_after_set :
+  sin (theta_external_gen n_along s') = n_along (normalize (polar_dir (b_phi s) (b_theta s'))) * sin (b_theta s').
+Proof.
+  destruct after_set_theta_external as [Et Ep].
+  unfold theta_external_gen. rewrite Et.
+  pose proof (snell_forward_relation n_along s' (sg * theta_star)) as H. cbv zeta in H. rewrite Ep in H.
+  apply H. exact forward_guard_from_residual.
+Qed.
 
 Theorem snell_roundtrip : Rabs (theta_external_gen n_along s' - e) <= r / cos M.
 Proof.
   destruct after_set_theta_external as [Et Ep].
   unfold theta_external_gen, calc_external_theta_from_internal_gen. rewrite Et, Ep, !div1, mul1.
-  change (sin theta_star * cos (b_phi s), sin theta_star * sin (b_phi s), cos theta_star) with (polar_dir (b_phi s) theta_star).
+  change (sin (sg * theta_star) * cos (b_phi s), sin (sg * theta_star) * sin (b_phi s), cos (sg * theta_star))
+    with (polar_dir (b_phi s) (sg * theta_star)).
   fold n_star. set (x := n_star * sin theta_star).
-  pose proof residual_form as Hr. fold x in Hr.
-  assert (Hr0 : 0 <= r) by (eapply Rle_trans; [apply Rabs_pos | exact Hr]).
-  assert (Hse : 0 <= sin e) by (apply sin_ge_0; pose proof PI_RGT_0; lra).
-  assert (HsM : sin e <= sin M) by lra.
+  replace (n_star * sin (sg * theta_star)) with (sg * x) by (unfold sg, x; rewrite sin_signum; ring).
+  unfold sg. rewrite asin_signum. rewrite <- (signum_abs e) at 2. fold a.
+  replace (signum e * asin x - signum e * a) with (signum e * (asin x - a)) by ring.
+  rewrite Rabs_mult, Rabs_signum, Rmult_1_l.
+  pose proof residual_form as Hr. fold x in Hr. pose proof x_range as Hx. fold x in Hx. pose proof a_range as Ha.
   assert (HM0 : 0 <= M) by lra.
-  assert (Hx : - sin M <= x <= sin M).
-  { apply Rabs_le_inv in Hr. assert (0 <= sin M) by (apply sin_ge_0; pose proof PI_RGT_0; lra). lra. }
   assert (HsM1 : sin M <= 1) by apply SIN_bound.
   pose proof (asin_bound_M x M (conj HM0 (Rlt_le _ _ HM)) Hx) as Hb.
   assert (HcM : 0 < cos M) by (apply cos_gt_0; lra).
   assert (Hsa : sin (asin x) = x) by (apply sin_asin; lra).
-  pose proof (sin_expanding M e (asin x) (conj HM0 HM)) as Hexp.
-  assert (Hexp' : cos M * Rabs (asin x - e) <= Rabs (sin (asin x) - sin e)) by (apply Hexp; lra).
+  pose proof (sin_expanding M a (asin x) (conj HM0 HM)) as Hexp.
+  assert (Hexp' : cos M * Rabs (asin x - a) <= Rabs (sin (asin x) - sin a)) by (apply Hexp; lra).
   rewrite Hsa in Hexp'.
-  assert (Rabs (x - sin e) <= r) by (rewrite Rabs_minus_sym; exact Hr).
+  assert (Rabs (x - sin a) <= r) by (rewrite Rabs_minus_sym; exact Hr).
   apply Rmult_le_reg_l with (cos M); [exact HcM |].
   replace (cos M * (r / cos M)) with r by (field; lra). lra.
 Qed.
 
-(* with n >= 1 the internal angle does not exceed the external one (up to the residual) *)
-Theorem internal_not_larger : 1 <= n_star -> sin (b_theta s') <= sin e + r.
+(* with n >= 1 the internal angle does not exceed the external one: sines up to the residual … *)
+Theorem internal_not_larger : 1 <= n_star -> sin (Rabs (b_theta s')) <= sin (Rabs e) + r.
 Proof.
-  intros Hn. destruct after_set_theta_external as [-> _].
+  intros Hn. rewrite abs_theta_after. fold a.
   pose proof residual_form as Hr. apply Rabs_le_inv in Hr.
   assert (0 <= sin theta_star) by (apply sin_ge_0; pose proof PI_RGT_0; lra).
   nra.
+Qed.
+
+(* … and as ANGLES: |theta_i| <= |theta_e| + r / cos M *)
+Theorem internal_angle_not_larger : 1 <= n_star -> Rabs (b_theta s') <= Rabs e + r / cos M.
+Proof.
+  intros Hn. pose proof (internal_not_larger Hn) as Hs. rewrite abs_theta_after in *. fold a in Hs |- *. pose proof a_range as Ha.
+  assert (Hr0 : 0 <= r) by (pose proof residual_form as H; eapply Rle_trans; [apply Rabs_pos | exact H]).
+  assert (HcM : 0 < cos M) by (apply cos_gt_0; pose proof PI_RGT_0; lra).
+  assert (Hq : 0 <= r / cos M) by (apply Rmult_le_pos; [exact Hr0 | left; apply Rinv_0_lt_compat; exact HcM]).
+  destruct (Rle_dec theta_star a) as [Hle | Hgt]; [lra |]. apply Rnot_le_lt in Hgt.
+  assert (HtM : theta_star <= M).
+  { destruct (Rle_dec theta_star M) as [H | H]; [exact H | exfalso]. apply Rnot_le_lt in H.
+    assert (sin M < sin theta_star) by (apply sin_increasing_1; pose proof PI_RGT_0; lra). fold a in HrM. lra. }
+  pose proof (sin_expanding M a theta_star) as Hexp.
+  assert (He2 : cos M * Rabs (theta_star - a) <= Rabs (sin theta_star - sin a)) by (apply Hexp; lra).
+  assert (Hinc : sin a < sin theta_star) by (apply sin_increasing_1; pose proof PI_RGT_0; lra).
+  rewrite !Rabs_right in He2 by lra.
+  apply Rmult_le_reg_l with (cos M); [exact HcM |].
+  replace (cos M * (a + r / cos M)) with (cos M * a + r) by (field; lra). lra.
 Qed.
 End RoundTrip.
 
 (* the property's numbers: residual <= 3e-8 and theta_e in [0, 80 deg] give a read-back within 1e-5 deg *)
 Theorem snell_roundtrip_80deg nm n_along s e r :
-  beam_inv s -> 0 <= e <= 80 * (PI / 180) -> r <= 3e-8 ->
+  beam_inv s -> Rabs e <= 80 * (PI / 180) -> r <= 3e-8 ->
   0 <= theta_star nm n_along s e <= PI / 2 ->
   snell_cost_gen n_along s e (theta_star nm n_along s e) <= r ->
   Rabs (theta_external_gen n_along (set_theta_external_gen (snell_inv_of nm n_along) s e) - e) <= 1e-5 * (PI / 180).
@@ -157,12 +245,13 @@ Proof.
   intros Hs He Hr Hb Hc.
   set (M := 80 * (PI / 180) + 2e-7).
   assert (HM : M < PI / 2) by (unfold M; interval).
-  assert (HrM : sin e + r <= sin M).
+  assert (Ha0 : 0 <= Rabs e) by apply Rabs_pos.
+  assert (HrM : sin (Rabs e) + r <= sin M).
   { apply Rle_trans with (sin (80 * (PI / 180)) + 3e-8).
     - apply Rplus_le_compat; [| exact Hr].
-      destruct (Req_dec e (80 * (PI / 180))) as [-> | Hne]; [lra |]. left. pose proof PI_RGT_0. apply sin_increasing_1; lra.
+      destruct (Req_dec (Rabs e) (80 * (PI / 180))) as [-> | Hne]; [lra |]. left. pose proof PI_RGT_0. apply sin_increasing_1; lra.
     - unfold M. apply Rminus_le. interval with (i_prec 80). }
-  assert (He' : 0 <= e <= M) by (unfold M; lra).
+  assert (He' : Rabs e <= M) by (unfold M; lra).
   pose proof (snell_roundtrip nm n_along s e r M Hs He' HM Hb Hc HrM) as H.
   assert (Hr0 : 0 <= r).
   { eapply Rle_trans; [| exact Hc]. unfold snell_cost_gen. apply Rabs_pos. }
